@@ -42,7 +42,7 @@ ASSUMPTIONS = [
 
 
 def budget(tier):
-    return int(os.environ.get("VERIF_BUDGET", 0)) or {"quick": 1500, "thorough": 30000}[tier]
+    return int(os.environ.get("VERIF_BUDGET", 0)) or {"quick": 1000, "thorough": 20000}[tier]
 
 
 # ---------------------------------------------------------------- generation
@@ -66,7 +66,7 @@ def gen_individual(rng, idv, cols, mode):
     for _ in range(n):
         r = rng.random()
         if not first:
-            if r < 0.45:
+            if r < mode["tie"]:
                 pass  # tie with the previous record
             else:
                 t = t + Fraction(rng.randint(1, 12 * q), q)
@@ -119,7 +119,7 @@ def gen_individual(rng, idv, cols, mode):
 def gen_case(rng):
     cols = {"evid": rng.random() < 0.5, "ss": rng.random() < 0.3, "mdv": rng.random() < 0.4,
             "addl": rng.random() < 0.35, "dose": rng.random() < 0.97}
-    mode = {"resets": rng.random() < 0.5, "restart": rng.random() < 0.5, "unsorted": rng.random() < 0.06}
+    mode = {"tie": rng.choice([0.1, 0.25, 0.45]), "resets": rng.random() < 0.5, "restart": rng.random() < 0.5, "unsorted": rng.random() < 0.06}
     nind = rng.randint(1, 6)
     idmode = rng.random()
     ids = rng.sample(range(1, 12), nind)
@@ -133,7 +133,7 @@ def gen_case(rng):
             cut = rng.randrange(1, len(blocks[k]))
             tail = blocks[k][cut:]
             blocks[k] = blocks[k][:cut]
-            blocks.insert(rng.randrange(len(blocks) + 1), tail)
+            blocks.insert(rng.randrange(k + 1, len(blocks) + 1), tail)
     rows = [r for b in blocks for r in b]
     if not cols["dose"]:
         for r in rows:
@@ -319,12 +319,14 @@ def walk_doseid(rows, cols):
     return out
 
 
-def chrono(rows):
+def chrono(rows, rgs=None):
+    """times never decrease within an individual (within each of its reset groups when rgs is given)"""
     last = {}
-    for r in rows:
-        if r.id in last and r.time < last[r.id]:
+    for j, r in enumerate(rows):
+        key = (r.id, rgs[j]) if rgs is not None else r.id
+        if key in last and r.time < last[key]:
             return False
-        last[r.id] = r.time
+        last[key] = r.time
     return True
 
 
@@ -368,12 +370,15 @@ def run_case(case, drv):
     orig = df.copy(deep=True)
     has_dose_rec = any(r.amt > 0 for r in rows)
     nontrivial = has_dose_rec and any(r.amt == 0 for r in rows)
-    is_chrono = chrono(rows)
+    is_chrono = chrono(rows)                         # whole individual (needed for TAD >= 0)
+    is_chrono_rg = chrono(rows, rg_list(rows, cols))  # within each reset group (time may restart after a reset)
     hard_id = idn != "ID" and cols["evid"]       # code path reading the literal column 'ID'
     tags += [f"n={min(n, 30) // 5 * 5}+", f"inds={len({r.id for r in rows})}", f"id={idn}",
              "cols=" + "".join(c[0] for c in ("dose", "evid", "ss", "mdv", "addl") if cols[c])]
-    if not is_chrono:
+    if not is_chrono_rg:
         tags.append("unsorted-times")
+    elif not is_chrono:
+        tags.append("time-restarts-after-reset")
     if any(cols["evid"] and r.evid >= 3 for r in rows):
         tags.append("has-reset")
     ties = sum(1 for j in range(1, n) if rows[j].id == rows[j - 1].id and rows[j].time == rows[j - 1].time
@@ -418,13 +423,17 @@ def run_case(case, drv):
                 tags.append("regular")
                 if m1 != mw:
                     k.append(f"theorem statement fails on data: Regular but model {m1} != walk {mw}")
-        if is_chrono:
+        if is_chrono_rg:
+            seen = set()
             for j in range(n):
                 if code_doseid[j] != ref[j]:
                     cls = classify_doseid(rows, cols, j, code_doseid, ref)
-                    mon.append({"cls": cls, "what": f"get_doseid row {j} (id {rows[j].id}, time {rows[j].time}): "
-                                f"code {code_doseid[j]}, walk {ref[j]}; full code {code_doseid} walk {ref}"})
-                    break
+                    if cls not in seen:
+                        seen.add(cls)
+                        mon.append({"cls": cls, "what": f"get_doseid row {j} (id {rows[j].id}, time {rows[j].time}): "
+                                    f"code {code_doseid[j]}, walk {ref[j]}; full code {code_doseid} walk {ref}"})
+            if not seen:
+                tags.append("doseid==walk")
 
     # ------------------------------------------------ expand_additional_doses
     exp_ok = None
@@ -466,7 +475,7 @@ def run_case(case, drv):
                             mon.append({"cls": "expand-changes-values", "what": f"column {c} of an original record changed"})
                             break
                     # order: within one individual and reset group, original records keep their order when chronological
-                    if is_chrono:
+                    if is_chrono_rg:
                         rgs = rg_list(rows, cols)
                         pos = {lab: p for p, lab in enumerate(kl)}
                         for a in range(n):
@@ -486,7 +495,7 @@ def run_case(case, drv):
                     mon.append({"cls": "expand-total-amount", "what": f"sum of AMT after expansion {got}, expected {float(tot)}"})
                 # against the reference expansion (times of additional doses, chronological order)
                 refx = py_expand(rows, cols)
-                if is_chrono:
+                if is_chrono_rg:
                     # per individual and reset group: same records, same times, chronological (stable) order;
                     # the relative order of different individuals / reset groups is not judged
                     rgs = rg_list(rows, cols)
@@ -538,17 +547,37 @@ def run_case(case, drv):
                         break
                 if list(t.columns) != list(orig.columns) + ["TAD"]:
                     mon.append({"cls": "tad-changes-columns", "what": f"columns {list(t.columns)}"})
+                # pharmpy's own dose ids of the (expanded) records explain the order it returns:
+                # individuals ascending, each stable-sorted by dose id, expanded records dropped
+                code_x = ex_labs = ex_exp = None
+                if cols["addl"]:
+                    okx, exm = call(lambda: _expanded_model(model))
+                    if okx:
+                        okd, resd = call(lambda: data.get_doseid(exm))
+                        if okd:
+                            code_x = [int(v) for v in resd.tolist()]
+                            ex_labs = [int(v) for v in exm.dataset["ROWLAB"].tolist()]
+                            ex_exp = [bool(v) for v in exm.dataset["EXPANDED"].tolist()]
+                elif code_doseid is not None:
+                    code_x, ex_labs, ex_exp = code_doseid, list(range(n)), [False] * n
                 if labs != list(range(n)):
+                    expected = None
+                    if code_x is not None:
+                        order = sorted(range(len(ex_labs)), key=lambda j: (rows[ex_labs[j]].id, code_x[j], j))
+                        expected = [ex_labs[j] for j in order if not ex_exp[j]]
                     ids_in_order = [r.id for r in rows]
                     asc = all(a <= b for a, b in zip(ids_in_order, ids_in_order[1:]))
-                    if not asc:
+                    if expected is not None and labs != expected:
+                        cls = "tad-order-unexplained"
+                    elif not asc:
                         cls = "tad-reorders-individuals"
-                    elif is_chrono:
+                    elif is_chrono_rg:
                         cls = "tad-reorders-tied-records"
                     else:
                         cls = None  # unsorted input with ADDL is sorted by time: not judged
                     if cls:
-                        mon.append({"cls": cls, "what": f"record order after add_time_after_dose is {labs}"})
+                        mon.append({"cls": cls, "what": f"record order after add_time_after_dose is {labs}"
+                                    + (f", dose ids explain {expected}" if cls == "tad-order-unexplained" else "")})
                 bad_dt = [c for c in orig.columns if t[c].dtype != orig[c].dtype]
                 if bad_dt:
                     mon.append({"cls": "tad-changes-dtype" + ("-addl" if cols["addl"] else ""),
@@ -591,14 +620,7 @@ def run_case(case, drv):
                         if not x.exp:
                             reft[x.lab] = x.time - first[(x.id, d)]
                     x_chrono = chrono(xr)
-                    code_x = None
-                    if cols["addl"]:
-                        # dose ids pharmpy uses internally are those of the expanded dataset
-                        okx, resx = call(lambda: data.get_doseid(_expanded_model(model)))
-                        code_x = [int(v) for v in resx.tolist()] if okx else None
-                    else:
-                        code_x = code_doseid
-                    if x_chrono and code_x == wd:
+                    if x_chrono and code_x == wd and ex_labs == [x.lab for x in xr]:
                         tags.append("tad-vs-walk")
                         for r in rows:
                             if not close(bylab[r.lab], reft[r.lab]):
@@ -609,7 +631,7 @@ def run_case(case, drv):
     # ------------------------------------------------ get_mdv / get_evid / observations / doses / counts
     ok, res = call(lambda: data.get_mdv(model))
     if not ok:
-        cls = "single-record-squeeze" if n == 1 and res.startswith("AttributeError") else "internal-error"
+        cls = "single-record-squeeze" if n == 1 and res.startswith(("AttributeError", "TypeError")) else "internal-error"
         mon.append({"cls": cls, "what": f"get_mdv raised {res} on a dataset with {n} record(s)"})
     else:
         code = [int(x) for x in res.tolist()]
@@ -627,7 +649,7 @@ def run_case(case, drv):
         tags.append("q:mdv")
     ok, res = call(lambda: data.get_evid(model))
     if not ok:
-        cls = "single-record-squeeze" if n == 1 and res.startswith("AttributeError") else "internal-error"
+        cls = "single-record-squeeze" if n == 1 and res.startswith(("AttributeError", "TypeError")) else "internal-error"
         mon.append({"cls": cls, "what": f"get_evid raised {res} on a dataset with {n} record(s)"})
     else:
         code = [int(x) for x in res.tolist()]
